@@ -11,6 +11,16 @@ CHECKS = {
          'Exhaustive exploration of every operation sequence of the real State for each configuration of a family grid (forced-bet layouts x stack vectors x variants x chip types x rake/divmod x automation), with the conservation invariant evaluated after every logged operation including automation cascades. Within the stated bounds nothing is sampled.',
          'Bounded: 2-4 players, stacks <= 9 units; draw/stud games deviation-bounded. Trusts Python arithmetic and the harness canonical form (all run-time fields minus the append-only log).',
          'DESIGN.md section 4 C01'),
+ 'C06': ('model_checking',
+         'explicit-state BFS over the real State with a card-accounting invariant and a per-operation card-movement monitor run in lock-step',
+         'Exhaustive exploration (within deviation bounds stated per family in the evidence) of operation sequences of configurations built to exhaust the deck (draw games with discard-all, 20-card-deck stud, 7-8 handed stud, explicit/unknown card mixes); after every logged operation the multiset of the six card containers must equal the configured deck and the cards must have moved between the documented piles.',
+         'Bounded: stacks small, draw/stud families bounded by k deviations from the default action; engine-chosen cards with a fixed deck order (VERIF_SEED rotates it).',
+         'DESIGN.md section 4 C06'),
+ 'C07': ('model_checking',
+         'explicit-state BFS over the real State for all 2^11 automation subsets; phase automaton (documented diagram) run as a monitor on every logged operation; Kahn acyclicity + longest-path bound on the explored graph',
+         'All 2048 automation subsets x small configurations x every sequence of available operations (incl. any player order and mucks): exactly one phase active per state, each logged operation follows the documented phase relation, no available operation or constructor raises, the explored state graph is acyclic with its longest path under a structural bound, no deadlock.',
+         'Admissible configurations only. Phase of a state is read through the default-argument can_* queries. Known defects (known_findings.json) prune the branch they occur on; counts are in the evidence.',
+         'DESIGN.md section 4 C07'),
 }
 
 def main():
